@@ -54,6 +54,7 @@ def _request(draw):
                               st.binary(max_size=30).map(world.u))),
         "rawtls": draw(st.booleans()),
         "search": draw(st.one_of(st.none(), st.none(), st.sampled_from(["q", "a b", "\xff", ""]))),
+        "bare": draw(st.sampled_from([False, False, True])),
     }
 
 
@@ -166,7 +167,10 @@ def _build_request(objs, rq):
     search = world.b(rq["search"]) if rq["search"] is not None else None
     if search is not None and fam in ("gopher", "gplus", "gdollar", "gbang"):
         search = re.sub(rb"[\t\r\n]", b" ", search)
-    return clients.encode(form, selb, search=search), clients.FORMS[form][0], form, sel, rq["mut"] != "none"
+    req = clients.encode(form, selb, search=search)
+    if rq.get("bare") and fam in ("http", "head", "wap") and form != "waphdr":
+        req = req.split(b"\r\n", 1)[0] + b"\r\n\r\n"  # a complete HTTP/1.0 request without any header line
+    return req, clients.FORMS[form][0], form, sel, rq["mut"] != "none"
 
 
 def _detected_form(req, tls):
@@ -222,6 +226,10 @@ def _disk_kind(root, selb):
 def _wellformed(root, req, tls, form, r, empty_ok=False, expected=None):
     """Oracle (a)+(b) on one Result. Returns list of Fail."""
     fails = []
+    if isinstance(r.escaped, drive.ReadsBeyondRequest):
+        return [Fail("waits-for-more-input:%s" % (form or "raw"),
+                     "request %r is complete, yet the server goes on reading from the connection (%s): a client that "
+                     "keeps the connection open gets no reply before the socket timeout" % (req[:80], r.escaped))]
     if r.escaped is not None:
         fails.append(Fail("escaped:" + drive.exc_signature(r.escaped),
                           "request %r: %r escaped the connection handler" % (req[:80], r.escaped)))
@@ -297,8 +305,11 @@ def check_case(case, ctx):
         try:
             req, tls, form, sel, mutated = _build_request(objs, case["req"])
             cfg = _cfg(root, full, 180)
-            r = drive.serve(cfg, req, tls=tls, realfd=full)
+            # structured requests are complete by construction: the client then keeps the connection open
+            r = drive.serve(cfg, req, tls=tls, realfd=full, open_conn=form is not None)
             ctx.label("single", "form:%s" % (form or "raw"), "mut:%s" % (case["req"]["mut"] if form else "raw"))
+            if form is not None and case["req"].get("bare") and clients.FORMS[form][1] in ("http", "head", "wap"):
+                ctx.label("http-without-header-lines")
             if mutated or (sel and "|" in sel):
                 ctx.nontriv()
                 ctx.sample(cls="single:" + (case["req"]["mut"] if form else "raw"))
